@@ -15,14 +15,14 @@
    inside the call that submits it (cache hit, send failure) while the second one is still to be
    submitted, next_lookup / end_hquery, "*qid = id" through &hquery->qid_a.
    Completeness when ares_cancel returns is proved for the code with fixes/C01-cancel-complete.patch
-   (C01_complete_at_cancel) and refuted for the code before it (C01_pinned_cancel_incomplete_refuted); sufficiency of the
-   fuel is not proved (the theorems speak about every fuel; the correspondence run reports fuel
-   exhaustion as a difference). *)
+   (C01_complete_at_cancel) and refuted for the code before it (C01_pinned_cancel_incomplete_refuted).
+   The theorems speak about every fuel; C01_fuel_sufficient gives the fuel (a linear function of
+   the size of the history, the one the correspondence driver supplies) that is never exhausted. *)
 From Coq Require Import List ZArith.
 Import ListNotations.
 From CAres.Base Require Import Outcome.
 From CAres.Core Require Import LifecycleMonitor LifecycleMonitor_proofs Lifecycle Lifecycle_inv Lifecycle_proofs
-  Lifecycle_tokens Lifecycle_tokens_proofs Lifecycle_cancel_top Lifecycle_refuted.
+  Lifecycle_tokens Lifecycle_tokens_proofs Lifecycle_cancel_top Lifecycle_fuel_proofs Lifecycle_fuel_top Lifecycle_refuted.
 
 (* The executable oracle run on the implementation's trace decides exactly the declarative
    property (at most once, none after destroy, complete at destroy/end, complete at cancel). *)
@@ -83,6 +83,17 @@ Theorem C01_model_traces_pass_the_monitor :
 Proof. exact run_trace_ok_full. Qed.
 Print Assumptions C01_model_traces_pass_the_monitor.
 
+(* the fuel is the depth of nested calls plus the iteration bound of the loops; with
+   fuel_bound h final = 20 * (sum over the inputs of 4 * tape events + size of the call) + 10
+   (size of a call: 20 + 8 per search candidate / lookup, 64 per getaddrinfo lookup or name) the
+   model never stops for lack of fuel: every outcome is a trace, a desynchronised tape, or - for
+   the pinned variants only - undefined behaviour *)
+Theorem C01_fuel_sufficient :
+  forall cf fuel h final, cf_fix cf = all_fixed ->
+  fuel_bound h final <= fuel -> run cf fuel h final <> Err OutOfFuel.
+Proof. exact run_fuel_sufficient. Qed.
+Print Assumptions C01_fuel_sufficient.
+
 (* the hypotheses are inhabited by non-trivial histories (reentrant cancel with a failing
    follow-up send on the connection under read; a getaddrinfo whose first query is released by a
    callback while it is being sent; a top-level cancel during which a callback's request closes
@@ -98,11 +109,13 @@ Example C01_hypotheses_inhabited :
   /\ NoDup (hist_toks h_cancel_complete)
   /\ run (mkcfg all_fixed 1) 60 h_cancel_complete []
      = Ok [EvReq 2; EvReq 1; EvCancelBegin; EvCb 2 24%Z; EvReq 3; EvCb 1 24%Z; EvCb 3 11%Z; EvCancelEnd;
-           EvDestroyBegin; EvDestroyEnd; EvEnd].
+           EvDestroyBegin; EvDestroyEnd; EvEnd]
+  /\ run (mkcfg all_fixed 1) (fuel_bound h_cancel_complete []) h_cancel_complete []
+     = run (mkcfg all_fixed 1) 60 h_cancel_complete [].
 Proof.
   split; [vm_compute; repeat constructor; simpl; intuition discriminate|]. split; [vm_compute; reflexivity|].
   split; [vm_compute; repeat constructor; simpl; intuition discriminate|]. split; [vm_compute; reflexivity|].
-  split; [vm_compute; repeat constructor; simpl; intuition discriminate|]. vm_compute. reflexivity.
+  split; [vm_compute; repeat constructor; simpl; intuition discriminate|]. split; vm_compute; reflexivity.
 Qed.
 
 (* before fixes/C01-cancel-complete.patch "when ares_cancel() returns every request made before it
